@@ -410,6 +410,86 @@ pub fn run(report: &Report, thorough: bool) -> Evidence {
         |_| (),
     );
 
+    // ---- variants of the words the user's auto-correct file has entries for (other letter case, wrapped in punctuation,
+    // suffixed): typed before the file is edited / truncated / removed and again after update-engine; whatever the context
+    // keeps for them must not outlive the re-load
+    let variant_runs = AtomicU64::new(0);
+    {
+        let variants = ["As", "AS", "(as)", "Aser.", "as", "k.", "K"];
+        let vedits: Vec<(usize, Edit)> = vec![(0, Edit::Write(1)), (0, Edit::Write(3)), (0, Edit::Remove), (1, Edit::Write(2)), (2, Edit::Write(0)), (1, Edit::Write(3))];
+        par_for(
+            vedits.len() * 4,
+            1,
+            |w| scratch_xdg(&format!("c11v-{}", w)),
+            |xdg, idx| {
+                let (init, edit) = vedits[idx % vedits.len()];
+                let bits = idx / vedits.len();
+                let mut c = ph(0b1010 | (bits as u32 & 1));
+                c.smart = bits & 2 != 0;
+                c.xdg = xdg.clone();
+                for first in 0..variants.len() {
+                    crate::drv::clear_user_files(&c);
+                    write_ac(&c, DOCS[init], 0);
+                    variant_runs.fetch_add(1, Ordering::Relaxed);
+                    let mut evs: Vec<Ev> = vec![];
+                    let Ok(mut live) = Ctx::new(&c) else { continue };
+                    live.with_pre = false;
+                    let mut sink = vec![];
+                    // one variant first (alone in the memo), then all of them
+                    let order: Vec<&str> = std::iter::once(variants[first]).chain(variants.iter().copied()).collect();
+                    let mut ok = true;
+                    for v in &order {
+                        if type_word(&mut live, v, &mut evs, &mut sink).is_err() || live.apply(&Ev::Finish).is_err() {
+                            ok = false;
+                            break;
+                        }
+                        evs.push(Ev::Finish);
+                    }
+                    if !ok {
+                        continue;
+                    }
+                    match edit {
+                        Edit::None => {}
+                        Edit::Write(d) => write_ac(&c, DOCS[d], 10),
+                        Edit::Remove => {
+                            let _ = std::fs::remove_file(c.user_autocorrect_file());
+                        }
+                    }
+                    let up = Ev::Update(Box::new(c.clone()));
+                    evs.push(up.clone());
+                    if let Err(f) = live.apply(&up) {
+                        report.add(fail_violation("C11", &f, &c, &evs));
+                        continue;
+                    }
+                    let Ok(mut fresh) = Ctx::new(&c) else { continue };
+                    fresh.with_pre = false;
+                    for v in &variants {
+                        let mut got = vec![];
+                        let mut exp = vec![];
+                        let mut e2 = vec![];
+                        let a = type_word(&mut live, v, &mut evs, &mut got);
+                        let b = type_word(&mut fresh, v, &mut e2, &mut exp);
+                        let _ = live.apply(&Ev::Finish);
+                        let _ = fresh.apply(&Ev::Finish);
+                        evs.push(Ev::Finish);
+                        rend_compared.fetch_add(got.len() as u64, Ordering::Relaxed);
+                        if a.is_ok() && b.is_ok() && got != exp {
+                            report.add(
+                                Violation::new("C11", "update-differs-from-new-context", "update-differs:variant-of-an-auto-correct-key")
+                                    .opts(&c)
+                                    .events(&evs)
+                                    .feat("edit", format!("{:?}", edit))
+                                    .detail(format!("user auto-correct file {} at creation, variants typed, then {:?} and update-engine: typing {:?} renders {:?}, a new context renders {:?}", DOCS[init], edit, v, got.iter().map(|r| r.to_json()).collect::<Vec<_>>(), exp.iter().map(|r| r.to_json()).collect::<Vec<_>>())),
+                            );
+                            break;
+                        }
+                    }
+                }
+            },
+            |_| (),
+        );
+    }
+
     // ---- fixed method, synthetic layout: every option flip (thorough: every pair of flips) from all-off and all-on,
     // with continuations that exercise each helper (sign at the start, chandrabindu before a sign, reph key, left-standing
     // sign first, ro-/zo-fola, hasanta, number-pad key, quotes): every sequence of <= 2 keys over a 14-key alphabet, then a
@@ -590,6 +670,7 @@ pub fn run(report: &Report, thorough: bool) -> Evidence {
 
     let mut ev = Evidence::new("C11", &report.tier, "model_checking");
     ev.set("synthetic_layout_option_flip_runs", synth_runs.load(Ordering::Relaxed));
+    ev.set("autocorrect_key_variant_runs", variant_runs.load(Ordering::Relaxed));
     ev.set("synthetic_layout_renderings_compared", synth_rends.load(Ordering::Relaxed));
     ev.set("states", (runs.load(Ordering::Relaxed) + synth_runs.load(Ordering::Relaxed)).max(1));
     ev.set("transitions", events.load(Ordering::Relaxed).max(1));
